@@ -1,4 +1,4 @@
 INIT Init
 NEXT Next
-INVARIANTS OnlyAuthenticChanges HelloConfined DisconnectConfined DisconnectComplete LostOnlyAuthenticChanges LostOfflineConfined LostDisconnectConfined
+INVARIANTS OnlyAuthenticChanges HelloConfined DisconnectConfined DisconnectComplete LostOnlyAuthenticChanges LostOfflineConfined LostDisconnectConfined AtOnceConfined
 ACTION_CONSTRAINT DumpEdge
